@@ -24,6 +24,13 @@ mod rpc_errors;
 pub mod tls;
 mod tx_index;
 pub mod watcher;
+#[cfg(feature = "verif")]
+pub mod verif_sync;
+#[cfg(feature = "verif")]
+pub mod verif_export {
+    //! Re-exports of crate-private items needed by the verification harness.
+    pub use crate::tx_index::*;
+}
 
 #[cfg(test)]
 mod test_utils;
